@@ -94,6 +94,7 @@ let () =
   let impl_rt : (n, router) Hashtbl.t = Hashtbl.create 16 in
   let impl_rib : (n, string) Hashtbl.t = Hashtbl.create 16 in
   let late_pending : (n * string) option ref = ref None in
+  let rf_seen : (string, string) Hashtbl.t = Hashtbl.create 64 in
   let group_base = ref N0 and group_any = ref false in
   let stale_pending : (n * string) option ref = ref None in
   let held : (n, adv_entry list * int) Hashtbl.t ref = ref (Hashtbl.create 4) in
@@ -296,7 +297,7 @@ let () =
             else
               List.iter (fun (i, _) ->
                 let tbl = try Hashtbl.find impl_ent i with Not_found -> [] in
-                if not (table_ok g i tbl) then
+                if not (table_okw g i tbl) then
                   oracle "table_ok" (Printf.sprintf "router=%s rounds=%d table=%s" (dec_of_n i) !rounds
                     (dashed ";" (List.map (fun (d, (c, h)) -> String.concat "/" [dec_of_n d; dec_of_n c; dec_of_n h]) tbl)))) g
           end
@@ -321,7 +322,7 @@ let () =
           if not (settled (topo_of si)) then Printf.printf "BADCHK %d %s not-settled\n" !lineno !case
           else if not (fixedb si) then
             oracle "quiet_not_fixed" "the implementation announced nothing more, yet some router has not processed a neighbour's current advertisement"
-          else if not (converged si) then
+          else if not (convergedw si) then
             oracle "quiet_not_converged" (String.concat " | " (List.map (fun r -> dec_of_n r.self ^ ": " ^ str_ent r) si))
       | ["chkfixed"; _r] ->
           incr nchecks;
@@ -333,19 +334,44 @@ let () =
             if !rounds < need && all_pairs g <> [] then Printf.printf "BADCHK %d %s rounds=%d need=%d\n" !lineno !case !rounds need
             else if not (fixedb si) then
               oracle "not_fixed_after_bound" (Printf.sprintf "rounds=%d: some router's stored costs are not what its neighbour's current advertisement yields" !rounds)
-            else if not (converged si) then
+            else if not (convergedw si) then
               oracle "fixed_not_converged" (String.concat " | " (List.map (fun r -> dec_of_n r.self ^ ": " ^ str_ent r) si))
           end
       | ("rf" | "rfre") as kind :: cs :: res :: rest ->
-          (* refresh_order_independent evaluated on the implementation: the proved result of refresh for these costs *)
+          (* refresh on the implementation. What the property demands: (a) the two chosen hops carry the two least costs,
+             (b) the choice is a function of the cost map (same result whenever the same map is seen again, whatever the
+             map iteration order), (c) re-delivering an unchanged advertisement reports no change.  Which of several
+             equal-cost hops wins is NOT demanded; agreement with the model (whose tie direction is measured) is a
+             correspondence matter. *)
           incr nchecks;
           let costs = List.map (fun c -> match String.split_on_char '=' c with
                         | [h; v] -> (n_of_dec_raw h, n_of_dec_raw v) | _ -> failwith "rf cost") (items ',' cs) in
+          let inf = iNF in
+          (match String.split_on_char '/' res with
+           | [h1; l1; h2; l2] ->
+               let h1 = n_of_dec_raw h1 and l1 = n_of_dec_raw l1 and h2 = n_of_dec_raw h2 and l2 = n_of_dec_raw l2 in
+               let finite = List.filter (fun (_, c) -> N.ltb c inf) costs in
+               let minc l = List.fold_left (fun acc (_, c) -> if N.ltb c acc then c else acc) inf l in
+               let m1 = minc finite in
+               let ok1 = if N.eqb m1 inf then N.eqb l1 inf
+                         else N.eqb l1 m1 && List.exists (fun (h, c) -> N.eqb h h1 && N.eqb c m1) finite in
+               let others = List.filter (fun (h, _) -> not (N.eqb h h1)) finite in
+               let m2 = minc others in
+               let ok2 = if N.eqb m2 inf then N.eqb l2 inf
+                         else N.eqb l2 m2 && not (N.eqb h2 h1) && List.exists (fun (h, c) -> N.eqb h h2 && N.eqb c m2) others in
+               if not (ok1 && ok2) then
+                 oracle "refresh_not_two_least" (Printf.sprintf "costs=%s implementation=%s: the chosen next hops do not carry the two least costs" cs res)
+           | _ -> failwith "rf result");
+          (match Hashtbl.find_opt rf_seen cs with
+           | Some prev when prev <> res ->
+               oracle "refresh_unstable" (Printf.sprintf "the same cost map gave two different results: costs=%s first=%s now=%s (the result depends on the map iteration order)" cs prev res)
+           | Some _ -> ()
+           | None -> Hashtbl.replace rf_seen cs res);
+          if kind = "rfre" && rest <> ["0"] then
+            oracle "refresh_unstable" (Printf.sprintf "re-delivery of an unchanged advertisement reported a change: costs=%s result=%s" cs res);
           let (((l1, h1), l2), h2) = refresh_fold costs in
           let m = String.concat "/" [dec_of_n_raw h1; dec_of_n_raw l1; dec_of_n_raw h2; dec_of_n_raw l2] in
-          if m <> res then oracle "refresh_not_two_least" (Printf.sprintf "costs=%s expected=%s implementation=%s" cs m res);
-          if kind = "rfre" && rest <> ["0"] then
-            oracle "refresh_unstable" (Printf.sprintf "re-delivery of an unchanged advertisement reported a change: costs=%s result=%s" cs res)
+          if m <> res then diverge "refresh" m res
       | "noquiet" :: n :: _ -> oracle "no_quiescence" ("the notification-driven schedule did not come to rest within " ^ n ^ " fetches")
       | ["phys"; i; nb] -> Hashtbl.replace phys (n_of_dec i) (parse_nb (split_field "nb=" nb))
       | ["chkphys"; _w] ->
@@ -359,7 +385,7 @@ let () =
           if g <> gi then oracle "neighbours" (Printf.sprintf "physical=[%s] tables=[%s]" (show g) (show gi));
           List.iter (fun (i, _) ->
             let tbl = try Hashtbl.find impl_ent i with Not_found -> [] in
-            if not (table_ok g i tbl) then
+            if not (table_okw g i tbl) then
               oracle "table_ok_proto" (Printf.sprintf "router=%s physical=[%s] table=%s" (dec_of_n i) (show g)
                 (dashed ";" (List.map (fun (d, (c, h)) -> String.concat "/" [dec_of_n d; dec_of_n c; dec_of_n h]) tbl)))) g;
           Hashtbl.reset phys; Hashtbl.reset impl_nb; Hashtbl.reset impl_ent
